@@ -43,7 +43,8 @@ pub fn generate(tier: &str, seed: u64) -> Vec<Rec> {
     // kernels + vector ops of C08 (the kernel records name a backend in ps[0]; 8001/8002 have no backend: skip them)
     // big-accumulator records: keep those generated for the FFT64 family (values inside the i64 domain common to both families)
     base.extend(c08::generate(tier, seed.wrapping_add(8)).into_iter().filter(|r| r.code >= 8010 && (r.code < 8201 || r.ps[0] <= 2)));
-    base.extend(c09::generate(tier, seed.wrapping_add(9)));
+    // big-accumulator records (9101..9116) carry a domain tag at ps[16]: only the common-domain ones (0) are comparable across families
+    base.extend(c09::generate(tier, seed.wrapping_add(9)).into_iter().filter(|r| !(9100..9200).contains(&r.code) || r.ps[16] == 0));
     // DFT-domain ops: force the FFT64 magnitude domain for every record (be = 1 at generation time)
     base.extend(c07::generate(tier, seed.wrapping_add(7)).into_iter().filter(|r| r.code < 7100 && r.ps[0] <= 2));
     base.into_iter().map(|r| { let mut ps = r.ps.clone(); ps[0] = 0; Rec::new(100000 + r.code, ps, r.vs) }).collect()
